@@ -312,10 +312,10 @@ func (q *weightedFairQueueingPendingQueuePolicy) Push(chunk StreamSchedulerChunk
 }
 
 func (q *weightedFairQueueingPendingQueuePolicy) Peek() StreamSchedulerChunk {
-	if q.streamSelected {
-		return q.streamQueues[q.selectedStream].get(0)
-	}
-
+	// The choice is made afresh by every Peek: a selection left over from a Peek that was
+	// not followed by a Pop (the window was closed) must not overtake chunks with an earlier
+	// finish tag that were pushed since; serving it first would also push the virtual time
+	// past them and penalise whatever the other streams queue next.
 	var (
 		selectedChunk  *chunkPayloadData
 		selectedStream uint16
